@@ -30,7 +30,9 @@ import (
 	"github.com/tochemey/goakt/v4/internal/cluster"
 	"github.com/tochemey/goakt/v4/internal/internalpb"
 	"github.com/tochemey/goakt/v4/internal/remoteclient"
+	"github.com/tochemey/goakt/v4/internal/xsync"
 	"github.com/tochemey/goakt/v4/log"
+	"github.com/tochemey/goakt/v4/remote"
 )
 
 // This file exposes the relocation planner to the external verification
@@ -76,4 +78,19 @@ func VerifRelocateShare(remoting remoteclient.Client, requests []*internalpb.Rel
 	failures := &relocationFailures{}
 	w.relocateShare(context.Background(), requests, target, peers, failures)
 	return failures.items()
+}
+
+// VerifDeriveRelocationSet runs deriveRelocationSetFromRegistry on a bare
+// actor system whose registry scans are answered by cl and whose
+// remoting-port cache knows the departed peer.
+func VerifDeriveRelocationSet(cl cluster.Cluster, peerAddress string, remotingPort int) (*internalpb.PeerState, bool) {
+	sys := &actorSystem{
+		name:              "verif",
+		logger:            log.DiscardLogger,
+		cluster:           cl,
+		remoteConfig:      remote.NewConfig("127.0.0.1", 8080),
+		peerRemotingPorts: xsync.NewMap[string, int](),
+	}
+	sys.peerRemotingPorts.Set(peerAddress, remotingPort)
+	return sys.deriveRelocationSetFromRegistry(context.Background(), peerAddress)
 }
